@@ -133,7 +133,7 @@ func genC07(seed uint64) *Plan {
 	pr.HoldChoices = []uint16{9, 30, 90}
 	pr.ImportKinds = []string{"accept", "rewrite"}
 	pr.W = map[string]int{"announce": 10, "withdraw": 2, "wait": 1, "peer_close": 2, "peer_notify": 2, "peer_silent": 2,
-		"fail_write": 1, "dispose": 1, "raw_garbage": 0, "reconnect": 3}
+		"fail_write": 1, "dispose": 1, "raw_garbage": 2, "reconnect": 3}
 	pr.ReconnectProb = 0.6
 	pr.BigGapProb = 0.15
 	g := newGen("C07", seed, pr)
